@@ -1,6 +1,7 @@
 import ServiceModel.Proofs.Reachable
 import ServiceModel.Proofs.ModSvc
 import ServiceModel.Proofs.RestartStable
+import ServiceModel.Proofs.MonitorSound
 /-!
 # C14 — An available binding always holds the minimum deposit for its price
 -/
@@ -130,5 +131,11 @@ theorem available_holds_minimum_across_restarts (hc : CfgOK cfg p) {s : State} (
   obtain ⟨pr, md, hpr, hmd, hle⟩ := hB.minDep k b hb hav
   rw [hpr] at hpr2; injection hpr2 with hpr2; subst hpr2
   exact ⟨pr, hpr, hparse, by rw [← minDeposit_eq_max _ _ _ hmd]; exact hle⟩
+
+/-- The executable monitor `minDep`, which the check evaluates on every state decoded from the implementation's trace
+    (it recomputes the minimum from the *published text* of every available binding), reports nothing on any state of a
+    chain of the model, restarts included. -/
+theorem minimum_monitor_implied (hc : CfgOK cfg p) {s : State} (hr : ReachableR cfg p h0 t0 s) :
+    Mon.minDep s = [] := minDep_sound (reachableR_invAll hc hr)
 
 end SM.C14
